@@ -416,8 +416,8 @@ def rand_map(rng, x, allow_io=True, in_tree=True):
 
 
 def rand_un(rng, x):
-    nd = x.mesh.region.ndim
-    nv = x.nvdim
+    nd = int(x.mesh.region.ndim)
+    nv = int(x.nvdim)
     cplx = np.iscomplexobj(x.array)
     kinds = ["neg", "abs", "norm", "real", "imag", "conj", "phase", "cabs", "scalar", "scalar", "ufunc1",
              "ufunc1", "lshiftc", "diff", "diff"]
